@@ -5,7 +5,7 @@
        x up to locations and has the same layout. *)
 From Coq Require Import String List NArith Bool Lia.
 From GQL Require Import Base.Bytes Syntax.Lexer Syntax.Ast Syntax.Parser Syntax.Grammar Syntax.Printer
-  Proofs.SyntaxSound Proofs.SyntaxComplete Proofs.SyntaxPrinter Proofs.SyntaxRender Proofs.SyntaxLayoutWf.
+  Proofs.SyntaxSound Proofs.SyntaxComplete Proofs.SyntaxPrinter Proofs.SyntaxUtf8 Proofs.SyntaxRender Proofs.SyntaxLayoutWf.
 Import ListNotations.
 Open Scope N_scope.
 
@@ -17,13 +17,14 @@ Fixpoint ltoks (A : layout) : list (tkind * bytes) :=
   | PTok k v :: r => (k, tokval k v) :: ltoks r
   end.
 
-Definition ascii (v : bytes) : bool := forallb (fun c => c <? 128) v.
+(* a string value the printer's quoting is proved to preserve: valid UTF-8 *)
+Definition str_ok (v : bytes) : bool := str_okb v.
 Definition tok_wf (t : token) : bool :=
   match tk t with
   | NAME => name_ok (tval t)
   | INT => num_okb (tval t) false
   | FLOAT => num_okb (tval t) true
-  | STRING | BLOCK_STRING => ascii (tval t)
+  | STRING | BLOCK_STRING => str_ok (tval t)
   | _ => true
   end.
 Definition toks_wf (p : list token) : Prop := forallb tok_wf p = true.
@@ -156,7 +157,7 @@ Proof.
     + intros ts Hts. cbn [lay_value ltoks tokval] in Hts. sigs Hts.
       exists (VFloat (tval t0) (tokloc t0)). split; [apply DV_float; assumption|]. fin.
   - apply toks_wf_cons in W. destruct W as [Wt _]. unfold tok_wf in Wt.
-    assert (Wa : ascii (tval t) = true) by (destruct K as [K|K]; rewrite K in Wt; exact Wt). split.
+    assert (Wa : str_ok (tval t) = true) by (destruct K as [K|K]; rewrite K in Wt; exact Wt). split.
     + apply P1_wordy_last. exact Wa.
     + intros ts Hts. cbn [lay_value ltoks tokval] in Hts. sigs Hts.
       exists (VStr (tval t0) (tokloc t0)). split; [apply DV_string; left; assumption|]. fin.
